@@ -70,6 +70,7 @@ def c09_scripts(ctx):
     sc = mixed_scripts(ctx, n, policy_p=0.7)
     sc += tfile_scripts(ctx, modes=("whole", "rand"))
     sc += handover_scripts(ctx, 300 if ctx.tier == "quick" else 3000)
+    sc += lib.load_fuzz_corpus(ctx, 600, "C09")
     return sc
 
 
@@ -143,6 +144,7 @@ def c05_scripts(ctx):
     sc = mixed_scripts(ctx, n, policy_p=0.4)
     sc += tfile_scripts(ctx, modes=("whole", "bytes", "rand"))
     sc += handover_scripts(ctx, 250 if ctx.tier == "quick" else 2500)
+    sc += lib.load_fuzz_corpus(ctx, 600, "C05")
     return sc
 
 
@@ -339,6 +341,7 @@ def c06_scripts(ctx):
         items = [">" + traffic.hx(head + body[:k]), "g>%d" % gl] + [">" + traffic.hx(x) for x in traffic.chunkings(body[k + gl:], rng, rng.choice(("whole", "rand")))]
         items += ["<" + traffic.hx(b"HTTP/1.1 200 OK\r\nContent-Length: %d\r\n\r\n" % len(rbody) + rbody[:rk]), "g<1", "<" + traffic.hx(rbody[rk + 1:])]
         acc.append(traffic.script(rng.choice(("respdecomp=0,urlenc=1,mpart=1", "respdecomp=0", "p=IDS,respdecomp=0,urlenc=1", "respdecomp=0,mpart=1")), "-", items))
+    acc += [s for s in lib.load_fuzz_corpus(ctx, 500, "C06") if s[0].endswith(" -")]     # accounting: without callback policies
     return out, meta, acc
 
 
@@ -441,7 +444,8 @@ def hline(rng, name, value):
 def c11_case(rng):
     """returns (request bytes, expectation dict, trigger name)"""
     trig = rng.choice(("te+cl", "cl-twice", "cl-folded", "chunked-1.0", "cl-unparseable", "te-unsupported", "host-differs",
-                       "host-missing", "hostu-invalid", "hosth-invalid", "none", "res-te+cl", "res-cl-twice"))
+                       "host-missing", "hostu-invalid", "hosth-invalid", "none", "res-te+cl", "res-cl-twice",
+                       "host-port-differs", "host-header-nohost", "connect-host-differs"))
     if trig.startswith("res-"):
         return c11_response_case(rng, trig)
     version = b"HTTP/1.1"
@@ -482,6 +486,20 @@ def c11_case(rng):
     elif trig == "host-differs":
         target = b"http://" + host + rng.choice((b"", b":80")) + b"/p"
         host_hdr = rng.choice((b"other.example.com", b"www.example.org", host + b"x"))
+        exp = {"set": F_HOST_AMBIGUOUS, "coding": None}
+    elif trig == "host-port-differs":
+        target = b"http://" + host + rng.choice((b":80", b":8080", b":1")) + b"/p"
+        host_hdr = host + rng.choice((b":81", b":443", b":65535"))
+        exp = {"set": F_HOST_AMBIGUOUS, "coding": None}
+    elif trig == "host-header-nohost":
+        # the Host field names no host at all (empty, blank, only a port, an unterminated IPv6 literal) while the target names one
+        target = b"http://" + host + rng.choice((b"", b":80")) + b"/p"
+        host_hdr = rng.choice((b"", b" ", b"\t", b"[::1", b"[", b"[1:2"))
+        exp = {"set": F_HOST_AMBIGUOUS, "coding": None}
+    elif trig == "connect-host-differs":
+        method = b"CONNECT"
+        target = host + b":443"
+        host_hdr = rng.choice((b"other.example.com:443", b"www.example.org", host + b":444", b""))
         exp = {"set": F_HOST_AMBIGUOUS, "coding": None}
     elif trig == "host-missing":
         host_hdr = None
